@@ -62,6 +62,13 @@ def prepare_corpus(pid=None, tier=None):
             with open(os.path.join(out, "g_%s_%05d.sol" % (RAND_TAG, k)), "wb") as f:
                 f.write(randsol.program(RAND_TAG, k).encode("utf-8"))
         n += count
+    if pid in ("C03", "C15", "C16", "C04"):
+        # degenerate but valid files: nothing in them, white space only, comments only
+        for name, data in (("d_empty.sol", b""), ("d_blank.sol", b"\n\n \t\n\n"), ("d_crlf_blank.sol", b"\r\n\r\n"),
+                           ("d_comment.sol", b"// SPDX-License-Identifier: MIT\n/* nothing\n   here */\n")):
+            with open(os.path.join(out, name), "wb") as f:
+                f.write(data)
+            n += 1
     if pid == "C04":
         # boundary-value matrix: every pair of binary operators over every pair of boundary literals, all bracketings
         for part in range(randsol.MATRIX_PARTS):
@@ -493,6 +500,8 @@ def _layout_check(chk, tier, pid):
         if i and i <= len(texts):
             case["source"] = texts[i - 1]["text"]
             case["canon"] = texts[i - 1].get("canon", "")
+            if texts[i - 1].get("prev"):
+                case["prev"] = texts[i - 1]["prev"]
             rec = case.get("trace_record", {})
             for k in ("n", "inj", "gaps", "inner", "entry"):
                 case[k] = rec.get(k)
@@ -780,7 +789,9 @@ def _dir_check(chk, tier, pid):
                     rec["cat"], rec["pats"], json.dumps(rec["tree"])[:500], json.dumps(rec["result"])[:300],
                     json.dumps(rec["res"])[:300], why))
     trace_validate(chk, "TV_DirWalk", tpath, describe, timeout=3000)
-    if pid == "C03":
+    if pid in ("C03", "C16"):
+        # binary level: the report of a tree (with its ineligible files and the usual project files around the
+        # contracts) is the union of the reports of its eligible files analysed alone
         _pipeline(chk, tier, pid, beh)
     chk.exhaustive = True
     return recs
@@ -814,7 +825,9 @@ def _pipeline(chk, tier, pid, beh):
              {"entries": [fl("x.sol", "c6"), fl("y.sol", "c5"), dr("deep", [dr("er", [fl("z.sol", "c6")])])]},
              # a file whose contracts declare state variables of the same names (c8): what is reported for it is a
              # function of the file, run after run
-             {"entries": [fl("Same.sol", "c8"), dr("lib", [fl("Names.sol", "c8"), fl("b.sol", "c5")])]}] + trees
+             {"entries": [fl("Same.sol", "c8"), dr("lib", [fl("Names.sol", "c8"), fl("b.sol", "c5")])]},
+             # a file with 160 findings of one pattern in each category (c9)
+             {"entries": [fl("Many.sol", "c9"), dr("more", [fl("Many2.sol", "c9"), fl("b.sol", "c6")])]}] + trees
     recs = pipeline.run_trees(chk, hb, sb, trees, cat, d)
     if not recs:
         raise ToolError("no pipeline runs")
@@ -929,6 +942,8 @@ def _c14_execute(hb, sb, inputs):
         os.makedirs(cwd)
         bindrive.make_witness_dir(os.path.join(cwd, "P"), "P")
         bindrive.make_witness_dir(os.path.join(cwd, "T"), "T")
+        for furnished in (cwd, os.path.join(cwd, "P"), os.path.join(cwd, "T")):
+            bindrive.furnish(furnished)
         reports = os.path.join(scratch, "reports")
         os.makedirs(reports)
         sentinel = "SENTINEL previous report\n"
@@ -938,6 +953,7 @@ def _c14_execute(hb, sb, inputs):
             inp = rec["input"]
             if inp["contracts"] and not os.path.isdir(cdir):
                 bindrive.make_witness_dir(cdir, "C")
+                bindrive.furnish(cdir)
             if not inp["contracts"] and os.path.isdir(cdir):
                 shutil.rmtree(cdir)
             stale = (i % 2 == 1)
@@ -1095,6 +1111,9 @@ def _c18_execute(chk, sb, hist):
         with open(os.path.join(proj, "notes.txt"), "wb") as f:
             f.write(b"\x00\xff not solidity")
         os.makedirs(os.path.join(root, "other"))
+        # version control and tool configuration files in every working directory and in the analysed tree
+        for furnished in (proj, root, inner, os.path.join(root, "other")):
+            bindrive.furnish(furnished)
         cwds = {"in": proj, "parent": root, "sub": inner, "other": os.path.join(root, "other")}
         pathof = {"in": ".", "parent": "proj", "sub": "..", "other": proj}
         one_toml = os.path.join(root, "one.toml")
